@@ -35,6 +35,7 @@ def cases(draw, name, max_len):
     for src in case["srcs"]:
         src["fl"] = draw(st.sampled_from(["list", "iter", "agen", "list", "iter", "agen", "tuple", "tuplesub", "seq",
                                            "reiter", "areiter", "aproxy", "sgen", "sgen"]))
+        src["falsy"] = draw(st.integers(0, 3)) == 0  # (class-based flavours only: the object is falsy)
     for spec in case["fns"].values():
         spec["fl"] = draw(st.sampled_from(["def", "async", "def", "async", "eqobj", "unhashobj", "aeqobj"]))
     return case
@@ -47,6 +48,7 @@ def cases_large(draw, name):
     for src in case["srcs"]:
         src["fl"] = draw(st.sampled_from(["list", "iter", "agen", "list", "iter", "agen", "tuple", "tuplesub", "seq",
                                            "reiter", "areiter", "aproxy", "sgen", "sgen"]))
+        src["falsy"] = draw(st.integers(0, 3)) == 0  # (class-based flavours only: the object is falsy)
     for spec in case["fns"].values():
         spec["fl"] = draw(st.sampled_from(["def", "async", "def", "async", "eqobj", "unhashobj", "aeqobj"]))
     return case
